@@ -14,6 +14,7 @@ import Mahotas.Proofs.C08Ties
 import Mahotas.Proofs.C08TiesMark
 import Mahotas.Proofs.C08TiesDilate
 import Mahotas.Proofs.C08TiesHitmiss
+import Mahotas.Proofs.C08Fast
 import Mahotas.Properties.C01
 import Mahotas.Properties.C06
 import Mahotas.Properties.C07
@@ -879,3 +880,49 @@ theorem C08_center_of_mass_view_correct {α : Type} [Field α] (mA : Int → α)
               (logical mA vA).getD i 0).sum := by
   rw [(C08_center_of_mass_layout_free (C13.fieldOps α) mA mA vA vA wf wf labels ⟨rfl, fun _ _ => rfl⟩).1]
   exact C13_com_eq vA.shape (logical mA vA) labels
+
+
+/-- **F15 and value-level tie of the binary fast path.** `fast_binary_dilate_erode_2d` (taken by `py_erode` /
+`py_dilate` for 2-D bool C-arrays) only ever *updates* its output in the row loops (`&=`, `|=`). Started on an output
+nobody has written (`none` everywhere; an update of an unwritten cell leaves it unwritten), for every image shape
+`Ny × Nx`, every 2-D structuring element in any memory layout (read through `Bc.at(y, x)`) and both branches: the
+`std::copy` / `std::fill_n` in front of the loops assigns every cell, no cell is unwritten at the end, and the output is
+cell by cell `some` of C01's row-loop model (`fastErodeLoops` / `fastDilateLoops`) run on the logical arrays. -/
+theorem C08_defined_everywhere_fast_binary (isErosion : Bool) (mA : Int → Int) (vA : View) (mB : Int → Int)
+    (vB : View) (Ny Nx By Bx : Nat) (hA : vA.shape = [Ny, Nx]) (hB : vB.shape = [By, Bx]) (wfA : vA.WF)
+    (hc : vA.carray = true) :
+    fastBinaryView isErosion mA vA mB vB =
+      (if isErosion then C01.fastErodeLoops (toImg mA vA) vB.shape (logical mB vB).toArray
+       else C01.fastDilateLoops (toImg mA vA) vB.shape (logical mB vB).toArray).map some ∧
+    AllSome (fastBinaryView isErosion mA vA mB vB) := by
+  have h := fastBinaryView_eq isErosion mA vA mB vB Ny Nx By Bx hA hB wfA hc
+  refine ⟨h, ?_⟩
+  rw [h]
+  intro o ho
+  simp only [Array.toList_map, List.mem_map] at ho
+  obtain ⟨x, _, rfl⟩ := ho
+  rfl
+
+/-- **the binary fast path of erode is correct** (composition with `C01_fast_erode_loops_eq_pointwise`): for a 0/1
+image the cell the fast path leaves at every pixel `(y, x)` is the lattice definition `C01.erodeSpecAt` over the
+compressed support of the logical element — the same value the generic kernel writes (`C08_erode_view_correct`), so
+the dispatch of `py_erode` on `ISCARRAY` (a property of the memory layout) is unobservable. -/
+theorem C08_fast_erode_view_correct (mA : Int → Int) (vA : View) (mB : Int → Int) (vB : View) (Ny Nx By Bx : Nat)
+    (hA : vA.shape = [Ny, Nx]) (hB : vB.shape = [By, Bx]) (wfA : vA.WF) (hc : vA.carray = true)
+    (h01 : ∀ q, (toImg mA vA).getD q 0 = 0 ∨ (toImg mA vA).getD q 0 = 1)
+    (y x : Int) (hp : inside vA.shape [y, x] = true) :
+    pyErodeView dtBool mA vA mB vB = fastBinaryView true mA vA mB vB ∧
+    (fastBinaryView true mA vA mB vB).getD (ravelI vA.shape [y, x]) none =
+      some (C01.erodeSpecAt dtBool (toImg mA vA) (C01.support vB.shape (logical mB vB).toArray true) [y, x]) := by
+  constructor
+  · unfold pyErodeView
+    rw [if_pos (by simp [dtBool, hA, hc])]
+  · have hdata : (toImg mA vA).data.size = (toImg mA vA).size := by
+      simp [toImg, Img.size, logical_length]
+    obtain ⟨hsz, _, hspec⟩ := C01_fast_erode_loops_eq_pointwise (toImg mA vA) Ny Nx vB.shape (logical mB vB).toArray
+      y x hA hdata h01 hp
+    rw [(C08_defined_everywhere_fast_binary true mA vA mB vB Ny Nx By Bx hA hB wfA hc).1]
+    simp only [if_true]
+    rw [map_some_getD _ _ 0 (by rw [hsz]; exact C01.ravelI_lt _ _ hp)]
+    congr 1
+    exact hspec By Bx hB (by simp [logical_length, hB, shapeSize])
